@@ -288,3 +288,87 @@ Definition k_assembler (s : ksiz) : M unit :=
   let n := i64 ((s_x s - s_xo s) * (s_y s - s_yo s)) in
   _ <- alloc (s_c s) 24 ;;
   k_comp_allocs (Z.to_nat (s_c s)) n.
+
+(* ---------------- tile-parts: parseSOT, parseTileHeader, readTileData(WithLength), parseTile ---------------- *)
+
+Definition k_parse_sot (d : list Z) (o : Z) : M (Z * Z * Z) :=   (* (Isot, Psot, new offset) *)
+  len <- k_rd16 d o ;;
+  if negb (fst len =? 10) then err else
+  isot <- k_rd16 d (snd len) ;;
+  psot <- k_rd32 d (snd isot) ;;
+  tp <- k_rd8 d (snd psot) ;;
+  tn <- k_rd8 d (snd tp) ;;
+  ret (fst isot, fst psot, snd tn).
+
+(* readTileData: advance to the next 0xFF xx with xx >= 0x4F (and xx <> 0), or to the end of the
+   data; then the slice expression p.data[start:p.offset] (bounds: start <= offset <= len) *)
+Fixpoint k_scan_marker (fuel : nat) (d : list Z) (o : Z) : Z :=
+  match fuel with
+  | O => o
+  | S k =>
+    if zlen d <=? o then o
+    else if (znth d o 0 =? 255) && (o + 1 <? zlen d) && negb (znth d (o + 1) 0 =? 0) && (79 <=? znth d (o + 1) 0) then o
+    else k_scan_marker k d (o + 1)
+  end.
+Definition k_read_tile_data (d : list Z) (o : Z) : M Z :=
+  let e := k_scan_marker (S (length d)) d o in
+  if (o <? 0) || (e <? o) || (zlen d <? e) then pan else ret e.
+
+Definition k_read_tile_data_len (d : list Z) (tile_start psot o : Z) : M Z :=
+  if psot =? 0 then k_read_tile_data d o
+  else
+    let consumed := o - tile_start in
+    if psot <? consumed then k_read_tile_data d o
+    else
+      let remaining := psot - consumed in
+      if zlen d <? o + remaining then k_read_tile_data d o
+      else if (o <? 0) || (o + remaining <? o) then pan else ret (o + remaining).
+
+Record ktile := mkT { t_coc : list (Z * list Z); t_qcc : list (Z * list Z) }.
+
+Definition k_tile_segment (g : bool) (csiz : Z) (ts : ktile) (m : Z) (d : list Z) (o : Z) : M (ktile * Z) :=
+  if m =? 82 then o2 <- k_parse_cod d o ;; ret (ts, o2)
+  else if m =? 83 then
+    x <- k_parse_coc csiz d o ;;
+    let '(c, body, o2) := x in
+    match assoc (t_coc ts) c with
+    | Some old => if negb (zlist_eqb old body) then err else ret (mkT (upd (t_coc ts) c body) (t_qcc ts), o2)
+    | None => ret (mkT (upd (t_coc ts) c body) (t_qcc ts), o2)
+    end
+  else if m =? 92 then o2 <- k_parse_qcd g d o ;; ret (ts, o2)
+  else if m =? 93 then
+    x <- k_parse_qcc csiz d o ;;
+    let '(c, body, o2) := x in
+    match assoc (t_qcc ts) c with
+    | Some old => if negb (zlist_eqb old body) then err else ret (mkT (t_coc ts) (upd (t_qcc ts) c body), o2)
+    | None => ret (mkT (t_coc ts) (upd (t_qcc ts) c body), o2)
+    end
+  else if m =? 95 then o2 <- k_parse_poc csiz d o ;; ret (ts, o2)
+  else if m =? 94 then o2 <- k_parse_rgn csiz d o ;; ret (ts, o2)
+  else if m =? 116 then o2 <- k_parse_mct d o ;; ret (ts, o2)
+  else if m =? 117 then o2 <- k_parse_mcc d o ;; ret (ts, o2)
+  else if m =? 119 then o2 <- k_parse_mco d o ;; ret (ts, o2)
+  else o2 <- k_skip_segment d o ;; ret (ts, o2).
+
+(* parseTileHeader: until SOD (0xFF93) *)
+Fixpoint k_tile_loop (g : bool) (fuel : nat) (csiz : Z) (ts : ktile) (d : list Z) (o : Z) : M Z :=
+  match fuel with
+  | O => oof
+  | S k =>
+    mk <- k_rd16 d o ;;
+    if fst mk =? 65427 then ret (snd mk)
+    else
+      let m := if fst mk / 256 =? 255 then fst mk mod 256 else 0 in
+      x <- k_tile_segment g csiz ts m d (snd mk) ;;
+      k_tile_loop g k csiz (fst x) d (snd x)
+  end.
+
+(* parseTile: returns (Isot, offset after the tile-part data) *)
+Definition k_parse_tile (g : bool) (fuel : nat) (csiz : Z) (d : list Z) (o : Z) : M (Z * Z) :=
+  mk <- k_rd16 d o ;;
+  if negb (fst mk =? 65424) then err else
+  sot <- k_parse_sot d (snd mk) ;;
+  let '(isot, psot, o1) := sot in
+  o2 <- k_tile_loop g fuel csiz (mkT [] []) d o1 ;;
+  o3 <- k_read_tile_data_len d o psot o2 ;;
+  ret (isot, o3).
